@@ -32,7 +32,7 @@
 //!
 //! In-place mode: `(case k (inplace <name> <width> <indent>) (<file content after> <t2>))` - the body
 //! of fmt.rs's `exec` replayed on a temporary copy (Driver::parsed, File::create on the same path,
-//! print_io), and, when the `scc` binary exists, `(case k (cli <name> <width> <indent>) (<file after> <t2>))`.
+//! print_io), and, through the `scc` binary built from the current tree (first 40 / 400 files), `(case k (cli <name> <width> <indent>) (<file after> <t2>))`.
 use crate::gen_fun;
 use crate::pipe;
 use crate::rng::Rng;
@@ -276,9 +276,15 @@ pub fn cmd_fmt(seed: u64, n: usize, args: &[String], out: &mut dyn std::io::Writ
     // in-place mode
     let tmp = std::env::temp_dir().join(format!("verif-fmt-{}-{}", std::process::id(), seed));
     let _ = std::fs::create_dir_all(&tmp);
-    let scc = std::env::var("VERIF_SCC").unwrap_or_else(|_| format!("{repo}/target/debug/scc"));
-    let have_scc = cli && std::path::Path::new(&scc).exists();
-    let mut cli_left = 6usize;
+    // the scc binary is built from the CURRENT tree (cmd_robust::find_scc: $VERIF_SCC or cargo build into .cache/scc-target),
+    // never a possibly stale /repo/target
+    let (scc, have_scc) = if !cli { (String::new(), false) } else {
+        match crate::cmd_robust::find_scc(false) {
+            Ok((p, _)) => (p.to_string_lossy().to_string(), true),
+            Err(e) => { writeln!(out, "(case {k} (cli \"<scc binary>\" 0 0) ((ERR {}) \"\"))", sexp::quote(&e)).unwrap(); k += 1; (String::new(), false) }
+        }
+    };
+    let mut cli_left = if n < 200 { 40usize } else { 400 };
     for (idx, (name, text)) in file_texts.iter().enumerate() {
         let Parsed::Ok(p1) = parse(text) else { continue };
         let c = Cfg { width: *rng.pick(&WIDTHS), indent: *rng.pick(&INDENTS), lb: true, omit: false };
@@ -286,7 +292,7 @@ pub fn cmd_fmt(seed: u64, n: usize, args: &[String], out: &mut dyn std::io::Writ
         let res = match inplace_replay(text, &c, &tmp, idx) { Ok(s) => sexp::quote(&s), Err(e) => format!("(ERR {})", sexp::quote(&e)) };
         writeln!(out, "(case {k} (inplace {} {} {}) ({} {}))", sexp::quote(name), c.width, c.indent, res, sexp::quote(&t2)).unwrap();
         k += 1;
-        if have_scc && cli_left > 0 && rng.chance(1, 4) {
+        if have_scc && cli_left > 0 {
             cli_left -= 1;
             let res = match cli_inplace(&scc, text, &c, &tmp, idx) { Ok(s) => sexp::quote(&s), Err(e) => format!("(ERR {})", sexp::quote(&e)) };
             writeln!(out, "(case {k} (cli {} {} {}) ({} {}))", sexp::quote(name), c.width, c.indent, res, sexp::quote(&t2)).unwrap();
